@@ -42,6 +42,7 @@ TRUSTED = [
     "Lean 4 kernel",
     "functools.wraps, inspect.signature and descriptor unwrapping (metadata clauses are checked on the implementation only)",
     "Python's own argument binding (the generated def is compared with the original by calling both)",
+    "harness/translate_wrap.py (recognisers of the statements of the jaxtyped wrappers, _JaxtypingContext and _get_problem_arg) and the interpreters Model/WrapDsl.lean / Model/BlameDsl.lean (the typechecker passes, the one-parameter checker and message-text statements are primitives)",
 ]
 
 NAME_POOL = ["x", "y", "z", "T0", "default0", "ret0", "T1", "default1", "ret1", "T2", "fn", "args", "kwargs", "w"]
